@@ -111,6 +111,63 @@ Definition end_dchunk (st : rstate) (use_dict : bool) (c : chunk) (next : list c
       end
   end.
 
+(** the "data_idx == NULL" block: start with the first entry; inl = go on, inr = hash error *)
+Definition step_init (st2 : rstate) : rstate + rstate :=
+  match r_idx st2 with
+  | _ :: _ => inl st2
+  | [] =>
+      let idx0 := match h_chunks hd with
+                  | c0 :: cs => if (c_clen c0 =? 0) && (c_ulen c0 =? 0) then cs else c0 :: cs
+                  | [] => []
+                  end in
+      let st3 := set_chash (set_idx st2 idx0) (Some []) in
+      if 0 <? r_loc st3 then
+        match r_data st3 with
+        | [] => inr st3                            (* hash_update(NULL, n > 0) *)
+        | _ => let blk := takeN (r_loc st3) (r_data st3) in
+               match (if uflag hd then Some (r_fhash st3) else hash_update (r_fhash st3) blk) with
+               | Some fh => match hash_update (r_chash st3) blk with
+                            | Some ch => inl (set_chash (set_fhash st3 fh) ch)
+                            | None => inr (set_fhash st3 fh)
+                            end
+               | None => inr st3
+               end
+        end
+      else inl st3
+  end.
+
+(** the rest of the loop body: end of chunk, or one bounded read from the file *)
+Definition step_chunk (use_dict : bool) (dst_size : N) (st3 : rstate) (out1 : bytes) (frd : bool) : sres :=
+  match r_idx st3 with
+  | [] => SDone (ROk []) st3                      (* return 0 *)
+  | c :: next =>
+    if r_loc st3 =? c_clen c then
+      match end_dchunk st3 use_dict c next with
+      | (None, ste) => SDone (RErr (-1)) ste
+      | (Some st4, _) => SCont (match next with [] => set_eof st4 true | _ => st4 end) out1 frd
+      end
+    else if frd then SDone (RErr (-1)) (set_err st3 1)       (* file ended inside the chunk *)
+    else
+      (* bounded read from the file *)
+      let rs := if c_clen c <? r_loc st3 + dst_size then u64 (c_clen c + two64 - r_loc st3) else dst_size in
+      let src := takeN rs (r_rest st3) in
+      let st4 := set_rest st3 (dropN rs (r_rest st3)) in
+      let frd' := len src <? rs in
+      let st5 := match r_chash st4 with None => set_chash st4 (Some []) | Some _ => st4 end in
+      match (if uflag hd then Some (r_fhash st5) else hash_update (r_fhash st5) src) with
+      | None => SDone (RErr (-1)) (set_err st5 1)
+      | Some fh =>
+          let st6 := set_fhash st5 fh in
+          match hash_update (r_chash st6) src with
+          | None => SDone (RErr (-1)) (set_err st6 1)
+          | Some ch =>
+              let st7 := set_chash st6 ch in
+              (* comp_add_to_data *)
+              SCont (set_data st7 (r_data st7 ++ src) (r_loc st7 + len src)) out1 frd'
+          end
+      end
+  end.
+
 Definition comp_step (use_dict : bool) (dst_size : N) (st : rstate) (out : bytes) (frd : bool) : sres :=
   (* comp_read_from_dc *)
   let need := dst_size - len out in
@@ -126,62 +183,9 @@ Definition comp_step (use_dict : bool) (dst_size : N) (st : rstate) (out : bytes
   if negb (r_dcloc st2 + len (r_dc st2) =? r_dcloc st1 + len (r_dc st1)) || negb (r_dcloc st2 =? r_dcloc st1)
   then SCont st2 out1 frd
   else
-  (* data_idx == NULL: start with the first entry *)
-  let init : rstate + rstate :=
-    match r_idx st2 with
-    | _ :: _ => inl st2
-    | [] =>
-        let idx0 := match h_chunks hd with
-                    | c0 :: cs => if (c_clen c0 =? 0) && (c_ulen c0 =? 0) then cs else c0 :: cs
-                    | [] => []
-                    end in
-        let st3 := set_chash (set_idx st2 idx0) (Some []) in
-        if 0 <? r_loc st3 then
-          match r_data st3 with
-          | [] => inr st3                            (* hash_update(NULL, n > 0) *)
-          | _ => let blk := takeN (r_loc st3) (r_data st3) in
-                 match (if uflag hd then Some (r_fhash st3) else hash_update (r_fhash st3) blk) with
-                 | Some fh => match hash_update (r_chash st3) blk with
-                              | Some ch => inl (set_chash (set_fhash st3 fh) ch)
-                              | None => inr (set_fhash st3 fh)
-                              end
-                 | None => inr st3
-                 end
-          end
-        else inl st3
-    end in
-  match init with
+  match step_init st2 with
   | inr ste => SDone (RErr (-2)) (set_err ste 1)
-  | inl st3 =>
-    match r_idx st3 with
-    | [] => SDone (ROk []) st3                      (* return 0 *)
-    | c :: next =>
-      if r_loc st3 =? c_clen c then
-        match end_dchunk st3 use_dict c next with
-        | (None, ste) => SDone (RErr (-1)) ste
-        | (Some st4, _) => SCont (match next with [] => set_eof st4 true | _ => st4 end) out1 frd
-        end
-      else if frd then SDone (RErr (-1)) (set_err st3 1)       (* file ended inside the chunk *)
-      else
-        (* bounded read from the file *)
-        let rs := if c_clen c <? r_loc st3 + dst_size then u64 (c_clen c + two64 - r_loc st3) else dst_size in
-        let src := takeN rs (r_rest st3) in
-        let st4 := set_rest st3 (dropN rs (r_rest st3)) in
-        let frd' := len src <? rs in
-        let st5 := match r_chash st4 with None => set_chash st4 (Some []) | Some _ => st4 end in
-        match (if uflag hd then Some (r_fhash st5) else hash_update (r_fhash st5) src) with
-        | None => SDone (RErr (-1)) (set_err st5 1)
-        | Some fh =>
-            let st6 := set_fhash st5 fh in
-            match hash_update (r_chash st6) src with
-            | None => SDone (RErr (-1)) (set_err st6 1)
-            | Some ch =>
-                let st7 := set_chash st6 ch in
-                (* comp_add_to_data *)
-                SCont (set_data st7 (r_data st7 ++ src) (r_loc st7 + len src)) out1 frd'
-            end
-        end
-    end
+  | inl st3 => step_chunk use_dict dst_size st3 out1 frd
   end.
 
 Fixpoint comp_loop (fuel : nat) (use_dict : bool) (dst_size : N) (st : rstate) (out : bytes) (frd : bool)
@@ -310,4 +314,51 @@ Fixpoint read_all (fuel : nat) (st : rstate) (sizes : list N) (acc : bytes) : by
       | (_, st') => (acc, Some false, st')
       end
   end.
+
+(** all reads of a size sequence, whatever their results (for statements about what
+    happens after a failed call) *)
+Fixpoint reads (fuel : nat) (st : rstate) (sizes : list N) : list rres * rstate :=
+  match sizes with
+  | [] => ([], st)
+  | n :: sizes' =>
+      let (r, st1) := zck_read fuel st n in
+      let (rs, st2) := reads fuel st1 sizes' in (r :: rs, st2)
+  end.
+Fixpoint outs (rs : list rres) : bytes :=
+  match rs with
+  | [] => []
+  | ROk o :: t => o ++ outs t
+  | _ :: t => outs t
+  end.
+
+(** chunk requests with buffers of the declared sizes *)
+Inductive req := ReqData (k : nat) | ReqStored (k : nat).
+Fixpoint run_reqs (fuel : nat) (st : rstate) (rq : list req) : list rres :=
+  match rq with
+  | [] => []
+  | ReqData k :: t =>
+      let n := match skipn k (h_chunks hd) with c :: _ => c_ulen c | [] => 0 end in
+      let (r, st') := zck_get_chunk_data fuel st k n in r :: run_reqs fuel st' t
+  | ReqStored k :: t =>
+      let n := match skipn k (h_chunks hd) with c :: _ => c_clen c | [] => 0 end in
+      let (r, st') := zck_get_chunk_comp_data st k n in r :: run_reqs fuel st' t
+  end.
+
+(** src/unzck.c main, extraction of the whole file: zck_validate_data_checksum first
+    ([vdc], owned by property C09: its result and the state it leaves), then zck_read with a
+    BUF_SIZE buffer until it returns 0, then zck_close; on any failure the output file is
+    unlinked.  Result: exit status and the output file ([None] = no file left).
+    [calls] bounds the number of loop iterations of the model (status 2 = bound hit). *)
+Definition unzck_model (fuel calls : nat) (vdc : rstate -> Z * rstate) : N * option bytes :=
+  let (v, st1) := vdc open_state in
+  if (v <? 1)%Z then (1, None)
+  else match read_all fuel st1 (repeat BUF_SIZE calls) [] with
+       | (out, Some true, st2) =>
+           match zck_close st2 with
+           | (true, _) => (0, Some out)
+           | (false, _) => (1, None)
+           end
+       | (_, Some false, _) => (1, None)
+       | (_, None, _) => (2, None)
+       end.
 End Impl.
